@@ -76,39 +76,10 @@ func c03Judge(w *imp.World) []string {
 
 // ---- raw-operation BFS
 
-type rawOp struct {
-	name string
-	do   func(w *imp.World)
-}
-
-func c03RawOps() ([]rawOp, func(string) string) {
-	names := map[string]string{"a/f": "f", "b/f": "f", "x/f1": "f1"}
-	tn := imp.DefaultTrueName(names)
-	paths := []string{"a/f", "b/f", "x/f1", "fmt", "math/rand", "crypto/rand", "x/go"}
-	var ops []rawOp
-	for _, p := range paths {
-		p := p
-		if _, ok := names[p]; ok {
-			ops = append(ops, rawOp{"ImportName(" + p + ")", func(w *imp.World) { w.Name(p) }})
-		}
-		for _, a := range []string{"f", "f1"} {
-			a := a
-			ops = append(ops, rawOp{"ImportAlias(" + p + "," + a + ")", func(w *imp.World) { w.Alias(p, a) }})
-		}
-		ops = append(ops, rawOp{"Anon(" + p + ")", func(w *imp.World) { w.AnonImport(p) }})
-		ops = append(ops, rawOp{"Ref(" + p + ")", func(w *imp.World) { w.Ref(p, 0) }})
-	}
-	ops = append(ops, rawOp{"PackagePrefix=pkg", func(w *imp.World) { w.Prefix("pkg") }})
-	ops = append(ops, rawOp{"ImportNames(all)", func(w *imp.World) { w.Names("a/f", "b/f", "x/f1") }})
-	return ops, tn
-}
-
-func rawBuild(ops []rawOp, tn func(string) string, hist []int) *imp.World {
-	w := imp.New("NewFile", "", tn)
-	for _, i := range hist {
-		ops[i].do(w)
-	}
-	return w
+func c03RawSystem() *rawSystem {
+	return newRawSystem("NewFile", "", []string{"a/f", "b/f", "x/f1", "fmt", "math/rand", "crypto/rand", "x/go"},
+		map[string]string{"a/f": "f", "b/f": "f", "x/f1": "f1"}, []string{"f", "f1"}, []int{0}, true, "pkg",
+		rawOp{"ImportNames(all)", func(w *imp.World) { w.Names("a/f", "b/f", "x/f1") }})
 }
 
 func runC03(r *ev.Recorder) {
@@ -130,16 +101,16 @@ func runC03(r *ev.Recorder) {
 		"histories longer than the bounds, and more than the stated number of non-default settings per scenario, are outside the bound"}
 
 	// (1) BFS
-	ops, tn := c03RawOps()
+	sys := c03RawSystem()
 	var canonMu sync.Mutex
 	res := statespace.Search(statespace.System{
-		NumOps: len(ops), MaxDepth: depth, Stop: r.Expired,
+		NumOps: len(sys.ops), MaxDepth: depth, Stop: r.Expired,
 		Step: func(hist []int) (string, bool) {
-			w := rawBuild(ops, tn, hist)
+			w := sys.build(hist)
 			return imp.Key(w.F), true
 		},
 		Invariant: func(hist []int) {
-			w := rawBuild(ops, tn, hist)
+			w := sys.build(hist)
 			r.Eval(1)
 			a, msg := renderAnalyze(w)
 			var probs []string
@@ -201,7 +172,7 @@ func runC03(r *ev.Recorder) {
 	r.Note("families", perFam)
 }
 
-func replayImp(fams []*family, judge func(w *imp.World) []string, raw json.RawMessage) (bool, string) {
+func replayImp(fams []*family, sys *rawSystem, judge func(w *imp.World) []string, raw json.RawMessage) (bool, string) {
 	var c impCase
 	if err := json.Unmarshal(raw, &c); err != nil {
 		return true, "bad case"
@@ -214,12 +185,13 @@ func replayImp(fams []*family, judge func(w *imp.World) []string, raw json.RawMe
 		}
 		w = fam.scenario(explore.NewReplay(c.Vector))
 	} else {
-		ops, tn := c03RawOps()
-		w = rawBuild(ops, tn, c.BFS)
+		w = sys.build(c.BFS)
 	}
 	log := append([]string(nil), w.Log...)
 	probs := judge(w)
 	return len(probs) == 0, fmt.Sprintf("operations %v:\n%s\noutput:\n%s", log, strings.Join(probs, "\n"), w.Render().String())
 }
 
-func replayC03(raw json.RawMessage) (bool, string) { return replayImp(c03Families, c03Judge, raw) }
+func replayC03(raw json.RawMessage) (bool, string) {
+	return replayImp(c03Families, c03RawSystem(), c03Judge, raw)
+}
